@@ -766,6 +766,52 @@ fn aim_span(seed: u64, policy: &str) -> Script {
     live.script
 }
 
+/// A stale truncate on an idle, empty queue whose OWN GC pass deletes the files that hold every
+/// older mention of the queue: files that contain nothing retained can pile up without any GC pass
+/// when create_queue entries (here: with very long names) roll the log over.
+fn aim_stale(seed: u64, policy: &str) -> Script {
+    let mut rng = Rng(seed ^ 0x57A1E);
+    let bulk = 3 + rng.below(3) as usize;
+    let mut queues = vec![format!("idle-{}", rng.below(100)), "other".to_string()];
+    for idx in 0..bulk {
+        queues.push(format!("{idx}{}", "n".repeat(50_000 + rng.below(15_000) as usize)));
+    }
+    let mut live = Live::new(format!("aim-stale-{seed}"), policy, queues, seed);
+    live.push(Step::Create { q: 0 });
+    live.push(Step::Create { q: 1 });
+    let n = 2 + live.rng.below(6) as usize;
+    for _ in 0..n {
+        let payload = live.payload(20);
+        live.push(Step::Append { q: 0, pos: None, batch: vec![payload] });
+    }
+    let last = live.last_position(0).unwrap_or(0);
+    // the queue is emptied, possibly moved into the future
+    let reach = if live.rng.chance(40) { last + 10 + live.rng.below(40) } else { last };
+    live.push(Step::Truncate { q: 0, p: reach });
+    if live.rng.chance(40) {
+        let payload = live.payload(9);
+        live.push(Step::Append { q: 1, pos: None, batch: vec![payload] });
+        live.push(Step::Truncate { q: 1, p: 0 });
+    }
+    // roll the log over with entries that nobody retains and that run no GC pass
+    for q in 2..2 + bulk {
+        live.push(Step::Create { q });
+    }
+    // the stale truncate: below what the queue has reached; its GC pass has files to delete
+    let stale = reach.saturating_sub(1 + live.rng.below(reach.min(5) + 1));
+    live.push(Step::Truncate { q: 0, p: stale });
+    if live.rng.chance(30) {
+        live.push(Step::Truncate { q: 0, p: stale });
+    }
+    live.push(Step::Restart);
+    let payload = live.payload(7);
+    live.push(Step::Append { q: 0, pos: None, batch: vec![payload] });
+    live.push(Step::Restart);
+    let payload = live.payload(7);
+    live.push(Step::Append { q: 0, pos: None, batch: vec![payload] });
+    live.script
+}
+
 pub fn is_aimed(profile: &str) -> bool {
     profile.starts_with("aim-")
 }
@@ -785,6 +831,7 @@ pub fn generate(profile: &str, seed: u64, policy: &str) -> Script {
         "aim-recreate" => aim_recreate(seed, &policy_owned),
         "aim-seam" => aim_seam(seed, &policy_owned),
         "aim-span" => aim_span(seed, &policy_owned),
+        "aim-stale" => aim_stale(seed, &policy_owned),
         other => panic!("unknown aimed profile {other}"),
     });
     mrecordlog::verif::take_events();
